@@ -14,6 +14,12 @@ def base_programs(seed):
         progs.prog("b_ints", [progs.new(), progs.pc(progs.xyz_sint(-1000, 1000) + [progs.rec("intensity", "int", 0, 255), progs.rec("rowIndex", "int", 0, 9)], 40, seed=seed + 4), progs.FIN]),
         progs.prog("b_sph", [progs.new(), progs.pc(p[3] + [progs.rec("isIntensityInvalid", "int", 0, 1)], 12, seed=seed + 3,
                                                    setters=[progs.setter("transform", progs.tf((0.5, 0.5, 0.5, 0.5), (1.0, 2.0, 3.0)))]), progs.FIN]),
+        # float-typed limits and declared float ranges: their texts accept every float the parser knows
+        progs.prog("b_floats", [progs.new(), progs.pc(progs.xyz("single") + [progs.rec("intensity", "double", progs.f64(0.0), progs.f64(1.0))]
+                                                      + [progs.rec(n, "single", progs.f32(0.0), progs.f32(1.0)) for n in ("colorRed", "colorGreen", "colorBlue")], 10, seed=seed + 5,
+                                                      setters=[progs.setter("intensity_limits", {"min": progs.v_f64(0.0), "max": progs.v_f64(1.0)}),
+                                                               progs.setter("color_limits", {"rmin": progs.v_f32(0.0), "rmax": progs.v_f32(1.0), "gmin": progs.v_f32(0.0), "gmax": progs.v_f32(1.0),
+                                                                                             "bmin": progs.v_f32(0.0), "bmax": progs.v_f32(1.0)})]), progs.FIN]),
     ]
 
 
